@@ -1,11 +1,12 @@
 //! C01: flat codec round-trips values at any bit alignment.
-//! fn: pallas_codec::flat::en::Encoder::{bool,u8,word,integer,char,bytes,utf8,string,bits,filler,encode_list_with}
-//! fn: pallas_codec::flat::de::Decoder::{bool,u8,word,integer,char,bytes,string,bits8,filler,decode_list_with}
+//! fn: pallas_codec::flat::en::Encoder::{bool,u8,word,integer,char,bytes,utf8,bits,filler,encode_list_with}
+//! fn: pallas_codec::flat::de::Decoder::{bool,u8,word,integer,char,bytes,bits8,filler,decode_list_with}
 //! fn: pallas_codec::flat::{encode,decode} for bool,u8,usize,isize,char,Vec<u8>
 //! fn: pallas_codec::flat::zigzag::ZigZag for isize/usize
 //! stub: std::fmt::format -> empty String
 //! assume: every value harness ends with (value, trailing u8, encoder filler); the decoder side reads the trailing u8 and then the rest of the last byte with bits8 and requires the filler pattern 0..01 and pos == len; Decoder::filler itself (a loop of <= 8 bit reads) is checked on the encoder's filler at every alignment by the c01_q_filler_* family and by the flat::encode/decode harnesses
 //! outside: sequences longer than (K bools, value, value, u8, filler) as one solver query (the encoder only appends and the decoder only reads at its cursor, so one-step results per alignment compose -- that argument is not machine-checked); byte strings above 256 bytes (3 and more blocks: 511 bytes gave no verdict in 600 s); big_integer (num-bigint feature off)
+//! outside: Encoder::string / Decoder::string (char-list strings, marked 'TODO: do we need this?' in the source): str::chars and char::to_string over symbolic bytes give no verdict in 400 s for one char; the empty string passed once in 173 s and aborted (CBMC status 6) in the thorough run
 //! outside: Decoder::utf8 / decode::<String> = String::from_utf8(Decoder::bytes()): std's UTF-8 validator on symbolic bytes gives no verdict (C02 measured 15 min for 2 bytes); Encoder::utf8 is checked against Decoder::bytes
 use pallas_codec::flat::de::Decoder;
 use pallas_codec::flat::en::Encoder;
@@ -373,8 +374,6 @@ fam!(c01_t_bytes3_a3, bytes_rt, 3, 3, 6);
 fam!(c01_t_utf8_2_a6, utf8_rt, 6, 2, 5);
 fam!(c01_t_utf8_0_a0, utf8_rt, 0, 0, 9);
 fam!(c01_t_utf8_3_a3, utf8_rt, 3, 3, 6);
-// bound: Encoder::string / Decoder::string on the empty string after K symbolic bools (non-empty strings: outside, see file header)
-fam!(c01_t_string0_a2, string_rt, 2, 0, 4);
 // bound: encode_list_with / decode_list_with over u8, L in 0..=2 symbolic elements (unwind 4)
 fam!(c01_q_list2_a5, list_rt, 5, 2, 4);
 fam!(c01_t_list0_a0, list_rt, 0, 0, 4);
